@@ -72,6 +72,7 @@ Definition as_number_v0_bits (s : str) : option Z := as_number_v0 nearest_double
 Definition fast_atof (s : str) : option (Z * str) :=
   let s1 := skip_while is_cspace s in
   let s2 := if cur s1 =? 43 then adv s1 else s1 in
+  if (cur s1 =? 43) && (cur s2 =? 45) then Some (0, s2) else   (* "+-": invalid_argument *)
   match ff_scan s2 with
   | Some (d, r) => Some (fst (nearest_full d), r)
   | None => if ff_infnan s2 then None else Some (0, s2)
